@@ -3,7 +3,8 @@ HARNESSES = [
     H("c14_module_reader::c14_slice_read", desc="ProcessMemory::Slice::read for all (offset, length)"),
     H("c14_module_reader::c14_section_header_with_name_dynstr", desc="section lookup by name, 2 symbolic headers", timeout=1200),
     H("c14_module_reader::c14_section_header_with_name_short", desc="section lookup, 3-byte name", timeout=1200),
-    H("c14_module_reader::c14_read_name_from_strtab", desc="string-table name lookup, all offsets", timeout=1200),
+    H("c14_module_reader::c14_read_name_from_strtab_out_of_range", desc="string-table name lookup: every out-of-range / overflowing offset is an error", timeout=1200),
+    H("c14_module_reader::c14_read_name_from_strtab_in_range", desc="string-table name lookup: concrete offsets, symbolic bytes", timeout=1200),
     H("c14_module_reader::c14_build_id_fold_len0", desc="XOR fold, empty"), H("c14_module_reader::c14_build_id_fold_len1", desc="XOR fold, 1 byte"),
     H("c14_module_reader::c14_build_id_fold_len16", desc="XOR fold, 16"), H("c14_module_reader::c14_build_id_fold_len17", desc="XOR fold, 17"),
     H("c14_module_reader::c14_build_id_fold_len40", desc="XOR fold, 40"),
